@@ -1,6 +1,425 @@
-use serde_json::Value;
+//! arch descriptors, fixed-point harness, CFG edit scripts, paged / backing memory histories.
+use crate::cmds::{arch_for, backing_from, err_json};
+use crate::{emit, hex, ilread, unhex};
+use falcon::analysis::fixed_point;
+use falcon::architecture::Endian;
+use falcon::il;
+use falcon::memory::{self, MemoryPermissions};
+use falcon::RC;
+use serde_json::{json, Value};
+use std::cmp::Ordering;
+use std::collections::HashMap;
+
 pub type R<T> = Result<T, String>;
 
-pub fn dispatch(cmd: &str, _req: &Value) -> R<Value> {
-    Err(format!("unknown cmd {}", cmd))
+// ------------------------------------------------------------------ arch --
+
+fn arch(req: &Value) -> R<Value> {
+    let a = arch_for(req["arch"].as_str().ok_or("arch")?)?;
+    let cc = a.calling_convention();
+    let mut pres: Vec<Value> = cc.preserved_registers().iter().map(emit::scalar).collect();
+    pres.sort_by_key(|x| x.to_string());
+    let mut trash: Vec<Value> = cc.trashed_registers().iter().map(emit::scalar).collect();
+    trash.sort_by_key(|x| x.to_string());
+    let ra = match cc.return_address_type() {
+        falcon::analysis::calling_convention::ReturnAddressType::Register(s) => json!(["register", emit::scalar(s)]),
+        falcon::analysis::calling_convention::ReturnAddressType::Stack(o) => json!(["stack", o]),
+    };
+    let mut argtypes = Vec::new();
+    for i in 0..12 {
+        argtypes.push(match cc.argument_type(i) {
+            falcon::analysis::calling_convention::ArgumentType::Register(s) => json!(["register", emit::scalar(&s)]),
+            falcon::analysis::calling_convention::ArgumentType::Stack(o) => json!(["stack", o]),
+        });
+    }
+    Ok(json!({
+        "ok": true,
+        "name": a.name(),
+        "endian": match a.endian() { Endian::Big => "big", Endian::Little => "little" },
+        "word_size": a.word_size(),
+        "stack_pointer": emit::scalar(&a.stack_pointer()),
+        "cc": {
+            "argument_registers": cc.argument_registers().iter().map(emit::scalar).collect::<Vec<_>>(),
+            "preserved": pres, "trashed": trash,
+            "stack_argument_offset": cc.stack_argument_offset(),
+            "stack_argument_length": cc.stack_argument_length(),
+            "return_address": ra,
+            "return_register": emit::scalar(cc.return_register()),
+            "argument_types": argtypes,
+            "sp_preserved": cc.is_preserved(&a.stack_pointer()),
+        }
+    }))
+}
+
+// -------------------------------------------------------------- fixpoint --
+
+#[derive(Clone, Debug, PartialEq)]
+struct Bits(u64);
+impl PartialOrd for Bits {
+    fn partial_cmp(&self, o: &Bits) -> Option<Ordering> {
+        if self.0 == o.0 {
+            Some(Ordering::Equal)
+        } else if self.0 & o.0 == self.0 {
+            Some(Ordering::Less)
+        } else if self.0 & o.0 == o.0 {
+            Some(Ordering::Greater)
+        } else {
+            None
+        }
+    }
+}
+
+struct GenKill {
+    gen: HashMap<String, u64>,
+    kill: HashMap<String, u64>,
+}
+
+fn key_of(l: &il::RefProgramLocation) -> String {
+    let pl: il::ProgramLocation = l.clone().into();
+    crate::cmds2::loc_json(&pl).to_string()
+}
+
+impl<'f> fixed_point::FixedPointAnalysis<'f, Bits> for GenKill {
+    fn trans(&self, location: il::RefProgramLocation<'f>, state: Option<Bits>) -> Result<Bits, falcon::Error> {
+        let s = state.map(|b| b.0).unwrap_or(0);
+        let k = key_of(&location);
+        let g = self.gen.get(&k).cloned().unwrap_or(0);
+        let kl = self.kill.get(&k).cloned().unwrap_or(0);
+        Ok(Bits((s & !kl) | g))
+    }
+    fn join(&self, a: Bits, b: &Bits) -> Result<Bits, falcon::Error> {
+        Ok(Bits(a.0 | b.0))
+    }
+}
+
+#[derive(Clone, Debug)]
+struct Elem {
+    v: usize,
+    leq: RC<Vec<Vec<bool>>>,
+}
+impl PartialEq for Elem {
+    fn eq(&self, o: &Elem) -> bool {
+        self.v == o.v
+    }
+}
+impl PartialOrd for Elem {
+    fn partial_cmp(&self, o: &Elem) -> Option<Ordering> {
+        if self.v == o.v {
+            Some(Ordering::Equal)
+        } else if self.leq[self.v][o.v] {
+            Some(Ordering::Less)
+        } else if self.leq[o.v][self.v] {
+            Some(Ordering::Greater)
+        } else {
+            None
+        }
+    }
+}
+
+struct Table {
+    leq: RC<Vec<Vec<bool>>>,
+    join: Vec<Vec<usize>>,
+    bottom: usize,
+    transfer: HashMap<String, Vec<usize>>,
+}
+
+impl<'f> fixed_point::FixedPointAnalysis<'f, Elem> for Table {
+    fn trans(&self, location: il::RefProgramLocation<'f>, state: Option<Elem>) -> Result<Elem, falcon::Error> {
+        let s = state.map(|e| e.v).unwrap_or(self.bottom);
+        let k = key_of(&location);
+        let v = match self.transfer.get(&k) {
+            Some(t) => t[s],
+            None => s,
+        };
+        Ok(Elem { v, leq: self.leq.clone() })
+    }
+    fn join(&self, a: Elem, b: &Elem) -> Result<Elem, falcon::Error> {
+        Ok(Elem { v: self.join[a.v][b.v], leq: self.leq.clone() })
+    }
+}
+
+fn u64map(v: &Value) -> HashMap<String, u64> {
+    let mut m = HashMap::new();
+    if let Some(o) = v.as_object() {
+        for (k, x) in o {
+            m.insert(k.clone(), x.as_u64().unwrap_or(0));
+        }
+    }
+    m
+}
+
+fn fixpoint(req: &Value) -> R<Value> {
+    let f = ilread::function(&req["function"])?;
+    let forward = req["direction"].as_str().unwrap_or("forward") == "forward";
+    let opts = !req["force"].is_null() || !req["max_steps"].is_null();
+    let force = req["force"].as_bool().unwrap_or(false);
+    let max_steps = req["max_steps"].as_u64().unwrap_or(250000) as usize;
+    let kind = req["kind"].as_str().unwrap_or("genkill");
+    macro_rules! run {
+        ($a:expr, $conv:expr) => {{
+            let rows: Result<Vec<(String, Value)>, falcon::Error> = if forward {
+                let r = if opts {
+                    fixed_point::fixed_point_forward_options($a, &f, force, max_steps)
+                } else {
+                    fixed_point::fixed_point_forward($a, &f)
+                };
+                r.map(|m| {
+                    m.iter()
+                        .map(|(k, v)| {
+                            let kj = crate::cmds2::loc_json(k);
+                            (kj.to_string(), json!([kj, $conv(v)]))
+                        })
+                        .collect()
+                })
+            } else {
+                let r = if opts {
+                    fixed_point::fixed_point_backward_options($a, &f, force)
+                } else {
+                    fixed_point::fixed_point_backward($a, &f)
+                };
+                r.map(|m| {
+                    m.iter()
+                        .map(|(k, v)| {
+                            let pl: il::ProgramLocation = k.clone().into();
+                            let kj = crate::cmds2::loc_json(&pl);
+                            (kj.to_string(), json!([kj, $conv(v)]))
+                        })
+                        .collect()
+                })
+            };
+            match rows {
+                Ok(mut rows) => {
+                    rows.sort_by(|a, b| a.0.cmp(&b.0));
+                    json!({"ok": true, "table": rows.into_iter().map(|x| x.1).collect::<Vec<_>>()})
+                }
+                Err(e) => err_json(&e),
+            }
+        }};
+    }
+    Ok(if kind == "genkill" {
+        let a = GenKill { gen: u64map(&req["gen"]), kill: u64map(&req["kill"]) };
+        run!(a, |v: &Bits| json!(v.0))
+    } else {
+        let leq: Vec<Vec<bool>> = req["leq"].as_array().ok_or("leq")?.iter()
+            .map(|r| r.as_array().unwrap().iter().map(|b| b.as_bool().unwrap_or(false)).collect()).collect();
+        let join: Vec<Vec<usize>> = req["join"].as_array().ok_or("join")?.iter()
+            .map(|r| r.as_array().unwrap().iter().map(|b| b.as_u64().unwrap_or(0) as usize).collect()).collect();
+        let mut transfer = HashMap::new();
+        if let Some(o) = req["transfer"].as_object() {
+            for (k, x) in o {
+                transfer.insert(k.clone(), x.as_array().unwrap().iter().map(|b| b.as_u64().unwrap_or(0) as usize).collect());
+            }
+        }
+        let a = Table { leq: RC::new(leq), join, bottom: req["bottom"].as_u64().unwrap_or(0) as usize, transfer };
+        run!(a, |v: &Elem| json!(v.v))
+    })
+}
+
+// --------------------------------------------------------------- cfgedit --
+
+fn push_ops(b: &mut il::Block, ops: &Value) -> R<()> {
+    if let Some(a) = ops.as_array() {
+        for o in a {
+            match ilread::operation(o)? {
+                il::Operation::Assign { dst, src } => b.assign(dst, src),
+                il::Operation::Store { index, src } => b.store(index, src),
+                il::Operation::Load { dst, index } => b.load(dst, index),
+                il::Operation::Branch { target } => b.branch(target),
+                il::Operation::Intrinsic { intrinsic } => b.intrinsic(intrinsic),
+                il::Operation::Nop { .. } => b.nop(),
+            }
+        }
+    }
+    Ok(())
+}
+
+fn res_json(r: Result<(), falcon::Error>) -> Value {
+    match r {
+        Ok(()) => json!({"ok": true}),
+        Err(e) => err_json(&e),
+    }
+}
+
+fn cfgedit(req: &Value) -> R<Value> {
+    let mut g = if req["start"].is_null() { il::ControlFlowGraph::new() } else { ilread::cfg(&req["start"])? };
+    let mut results = Vec::new();
+    for op in req["script"].as_array().ok_or("script")? {
+        let t = op[0].as_str().ok_or("op tag")?;
+        let r = match t {
+            "new_block" => match g.new_block() {
+                Ok(b) => {
+                    push_ops(b, &op[1])?;
+                    json!({"ok": true, "index": b.index()})
+                }
+                Err(e) => err_json(&e),
+            },
+            "uncond" => res_json(g.unconditional_edge(op[1].as_u64().unwrap() as usize, op[2].as_u64().unwrap() as usize)),
+            "cond" => res_json(g.conditional_edge(op[1].as_u64().unwrap() as usize, op[2].as_u64().unwrap() as usize, ilread::expr(&op[3])?)),
+            "set_entry" => res_json(g.set_entry(op[1].as_u64().unwrap() as usize)),
+            "set_exit" => res_json(g.set_exit(op[1].as_u64().unwrap() as usize)),
+            "merge" => res_json(g.merge()),
+            "append" => res_json(g.append(&ilread::cfg(&op[1])?)),
+            "insert" => match g.insert(&ilread::cfg(&op[1])?) {
+                Ok((a, b)) => json!({"ok": true, "entry": a, "exit": b}),
+                Err(e) => err_json(&e),
+            },
+            "block_append" => {
+                let src = match g.block(op[2].as_u64().unwrap() as usize) {
+                    Ok(b) => Some(b.clone()),
+                    Err(_) => None,
+                };
+                match (src, g.block_mut(op[1].as_u64().unwrap() as usize)) {
+                    (Some(s), Ok(d)) => {
+                        d.append(&s);
+                        json!({"ok": true})
+                    }
+                    _ => json!({"ok": false, "kind": "NoBlock"}),
+                }
+            }
+            "remove_instruction" => match g.block_mut(op[1].as_u64().unwrap() as usize) {
+                Ok(b) => res_json(b.remove_instruction(op[2].as_u64().unwrap() as usize)),
+                Err(e) => err_json(&e),
+            },
+            "set_address" => {
+                g.set_address(op[1].as_u64());
+                json!({"ok": true})
+            }
+            "dump" => json!({"ok": true, "cfg": emit::cfg(&g)}),
+            _ => return Err(format!("unknown cfg op {}", t)),
+        };
+        results.push(r);
+    }
+    Ok(json!({"ok": true, "results": results, "final": emit::cfg(&g)}))
+}
+
+// --------------------------------------------------------------- memory --
+
+fn perm(v: &Value) -> MemoryPermissions {
+    MemoryPermissions::from_bits_truncate(v.as_u64().unwrap_or(7) as u32)
+}
+
+fn endian(v: &Value) -> Endian {
+    if v.as_str() == Some("big") { Endian::Big } else { Endian::Little }
+}
+
+/// pagedmem: a history over memory::paged::Memory<il::Expression> (stored values are fresh scalars)
+/// or Memory<il::Constant> ("values": "constant").
+fn pagedmem(req: &Value) -> R<Value> {
+    let concrete = req["values"].as_str() == Some("constant");
+    let mut mems_e: HashMap<String, memory::paged::Memory<il::Expression>> = HashMap::new();
+    let mut mems_c: HashMap<String, memory::paged::Memory<il::Constant>> = HashMap::new();
+    let mut out = Vec::new();
+    for op in req["ops"].as_array().ok_or("ops")? {
+        let t = op[0].as_str().ok_or("op")?;
+        let id = op[1].as_str().unwrap_or("m").to_string();
+        let r: Value = match t {
+            "new" => {
+                let e = endian(&op[2]);
+                let backing = if op[3].is_null() { None } else { Some(RC::new(backing_from(&op[3], e.clone())?)) };
+                if concrete {
+                    mems_c.insert(id, match backing { Some(b) => memory::paged::Memory::new_with_backing(e, b), None => memory::paged::Memory::new(e) });
+                } else {
+                    mems_e.insert(id, match backing { Some(b) => memory::paged::Memory::new_with_backing(e, b), None => memory::paged::Memory::new(e) });
+                }
+                json!({"ok": true})
+            }
+            "store" => {
+                let addr = op[2].as_u64().ok_or("addr")?;
+                if concrete {
+                    let c = il::Constant::new_big(op[3].as_str().ok_or("value")?.parse().map_err(|_| "value")?, op[4].as_u64().ok_or("bits")? as usize);
+                    match mems_c.get_mut(&id).ok_or("mem")?.store(addr, c) { Ok(()) => json!({"ok": true}), Err(e) => err_json(&e) }
+                } else {
+                    let e = ilread::expr(&op[3])?;
+                    match mems_e.get_mut(&id).ok_or("mem")?.store(addr, e) { Ok(()) => json!({"ok": true}), Err(e) => err_json(&e) }
+                }
+            }
+            "load" => {
+                let addr = op[2].as_u64().ok_or("addr")?;
+                let bits = op[3].as_u64().ok_or("bits")? as usize;
+                if concrete {
+                    match mems_c.get(&id).ok_or("mem")?.load(addr, bits) {
+                        Ok(Some(c)) => json!({"ok": true, "value": emit::constant(&c)}),
+                        Ok(None) => json!({"ok": true, "value": null}),
+                        Err(e) => err_json(&e),
+                    }
+                } else {
+                    match mems_e.get(&id).ok_or("mem")?.load(addr, bits) {
+                        Ok(Some(e)) => json!({"ok": true, "value": emit::expr(&e)}),
+                        Ok(None) => json!({"ok": true, "value": null}),
+                        Err(e) => err_json(&e),
+                    }
+                }
+            }
+            "clone" => {
+                let dst = op[2].as_str().ok_or("dst")?.to_string();
+                if concrete {
+                    let m = mems_c.get(&id).ok_or("mem")?.clone();
+                    mems_c.insert(dst, m);
+                } else {
+                    let m = mems_e.get(&id).ok_or("mem")?.clone();
+                    mems_e.insert(dst, m);
+                }
+                json!({"ok": true})
+            }
+            "eq" => {
+                let other = op[2].as_str().ok_or("other")?;
+                let v = if concrete { mems_c.get(&id).ok_or("mem")? == mems_c.get(other).ok_or("mem")? } else { mems_e.get(&id).ok_or("mem")? == mems_e.get(other).ok_or("mem")? };
+                json!({"ok": true, "value": v})
+            }
+            "setperm" => {
+                let (a, l, p) = (op[2].as_u64().ok_or("addr")?, op[3].as_u64().ok_or("len")?, perm(&op[4]));
+                if concrete { mems_c.get_mut(&id).ok_or("mem")?.set_permissions(a, l, p) } else { mems_e.get_mut(&id).ok_or("mem")?.set_permissions(a, l, p) }
+                json!({"ok": true})
+            }
+            "perm" => {
+                let a = op[2].as_u64().ok_or("addr")?;
+                let p = if concrete { mems_c.get(&id).ok_or("mem")?.permissions(a) } else { mems_e.get(&id).ok_or("mem")?.permissions(a) };
+                json!({"ok": true, "value": p.map(|x| x.bits())})
+            }
+            _ => return Err(format!("unknown pagedmem op {}", t)),
+        };
+        out.push(r);
+    }
+    Ok(json!({"ok": true, "results": out}))
+}
+
+fn sections_json(m: &memory::backing::Memory) -> Value {
+    json!(m.sections().iter().map(|(a, s)| json!([a, hex(s.data()), s.permissions().bits()])).collect::<Vec<_>>())
+}
+
+fn backing(req: &Value) -> R<Value> {
+    let mut m = memory::backing::Memory::new(endian(&req["endian"]));
+    let mut out = Vec::new();
+    for op in req["ops"].as_array().ok_or("ops")? {
+        let t = op[0].as_str().ok_or("op")?;
+        let r = match t {
+            "set_memory" => {
+                m.set_memory(op[1].as_u64().ok_or("addr")?, unhex(op[2].as_str().ok_or("data")?)?, perm(&op[3]));
+                json!({"ok": true})
+            }
+            "get8" => json!({"ok": true, "value": m.get8(op[1].as_u64().ok_or("addr")?)}),
+            "get32" => json!({"ok": true, "value": m.get32(op[1].as_u64().ok_or("addr")?)}),
+            "set32" => match m.set32(op[1].as_u64().ok_or("addr")?, op[2].as_u64().ok_or("value")? as u32) {
+                Ok(()) => json!({"ok": true}),
+                Err(e) => err_json(&e),
+            },
+            "get" => json!({"ok": true, "value": m.get(op[1].as_u64().ok_or("addr")?, op[2].as_u64().ok_or("bits")? as usize).map(|c| emit::constant(&c))}),
+            "perm" => json!({"ok": true, "value": m.permissions(op[1].as_u64().ok_or("addr")?).map(|p| p.bits())}),
+            "sections" => json!({"ok": true, "value": sections_json(&m)}),
+            _ => return Err(format!("unknown backing op {}", t)),
+        };
+        out.push(r);
+    }
+    Ok(json!({"ok": true, "results": out, "sections": sections_json(&m)}))
+}
+
+pub fn dispatch(cmd: &str, req: &Value) -> R<Value> {
+    match cmd {
+        "arch" => arch(req),
+        "fixpoint" => fixpoint(req),
+        "cfgedit" => cfgedit(req),
+        "pagedmem" => pagedmem(req),
+        "backing" => backing(req),
+        _ => Err(format!("unknown cmd {}", cmd)),
+    }
 }
